@@ -248,11 +248,20 @@ def main(prop, tier, seed, replay=None):
         # directed search on the real implementation
         try:
             extra = mod.search(ctx, broken, disagreements) if hasattr(mod, "search") else []
-        except Exception:
-            print("INFRA search crashed:\n" + traceback.format_exc())
-            if ctx.model is not None:
-                ctx.model.close()
-            return 2
+        except Exception as ex:
+            tb = traceback.format_exc()
+            repo = os.path.abspath(os.environ.get("NPTDMS_REPO", "/repo"))
+            frames = traceback.extract_tb(ex.__traceback__)
+            inside = [fr for fr in frames if os.path.abspath(fr.filename).startswith(repo + os.sep)]
+            if not inside:
+                print("INFRA search crashed:\n" + tb)
+                if ctx.model is not None:
+                    ctx.model.close()
+                return 2
+            # raised inside the code under test on a generated (well-formed) input: a verdict, as in the main run
+            extra = [Violation("unhandled %s from the code under test at %s:%d (%s) during the failing-input search: %s" % (
+                type(ex).__name__, os.path.relpath(inside[-1].filename, repo), inside[-1].lineno, inside[-1].name, str(ex)[:200]),
+                dict(kind="exception", traceback=tb[-3000:], seed=seed, tier=tier))]
         violations.extend(extra)
         if not unexplained(violations):
             what = "; ".join([b[0] for b in broken] + ["model/implementation correspondence broken: %s" % d.get("what", "") for d in disagreements[:3]])
